@@ -211,7 +211,7 @@ func (g *gen) word() string {
 	if g.r.Intn(5) == 0 {
 		return g.wild()
 	}
-	opts := []string{"a", "bb", "ccc", "é", "日本", "k:v", "/p/q", "x-y", "+", "p+q", "1..5", "*", "𝔘x", "a/b", "..", "min..max"}
+	opts := []string{"a", "bb", "ccc", "é", "日本", "k:v", "/p/q", "x-y", "+", "p+q", "1..5", "*", "𝔘x", "a/b", "..", "min..max", "/", "/", "a/"}
 	return opts[g.r.Intn(len(opts))]
 }
 
@@ -449,7 +449,9 @@ func (g *gen) fault(t string) (string, string) {
 	case 4:
 		return t + "/* never closed ", "unterminated-comment"
 	case 5:
-		return t + "z \"never closed", "unterminated-dquote"
+		// (also as a later piece of a concatenation, with and without a blank behind the +: the
+		// error names the opening quote of the piece that is not closed)
+		return t + []string{"z \"never closed", "z \"a\" +\"never closed", "z 'a'+\"never closed", "z \"a\" +\n  \"never closed", "z \"a\"\t+ \"b\" +\"never closed"}[g.r.Intn(5)], "unterminated-dquote"
 	case 6:
 		return t + "z 'never closed", "unterminated-squote"
 	case 7:
